@@ -1,14 +1,14 @@
 #!/bin/bash
 # usage: store_mutant.sh <id> <name>  : confirm demo in /tmp/mut/<id> (FAIL with patch, PASS without) and copy to /verif/seeded/<name>
-id="$1"; name="${2:-$1}"; wt=/tmp/mut/$id
+id="$1"; name="${2:-$1}"; root=${MUTROOT:-/tmp/mut}; wt=$root/$id
 export OMP_NUM_THREADS=1 NUMBA_NUM_THREADS=1 OPENBLAS_NUM_THREADS=1 PYTHONHASHSEED=0
 cd $wt || exit 2
-git diff -- flox > /tmp/mut/$id.current.diff
-[ -s /tmp/mut/$id.current.diff ] || git apply patch.diff
-( cd $wt && PYTHONPATH=$wt timeout 1200 /venv/bin/python demo.py > /tmp/mut/$id.after.log 2>&1 ); after=$?
-git stash -q -- flox
-( cd $wt && PYTHONPATH=$wt timeout 1200 /venv/bin/python demo.py > /tmp/mut/$id.before.log 2>&1 ); before=$?
-git stash pop -q
+git diff -- flox > $root/$id.current.diff
+[ -s $root/$id.current.diff ] || git apply patch.diff
+( cd $wt && PYTHONPATH=$wt timeout 1200 /venv/bin/python demo.py > $root/$id.after.log 2>&1 ); after=$?
+git diff -- flox > $root/$id.applied.diff; git apply -R $root/$id.applied.diff
+( cd $wt && PYTHONPATH=$wt timeout 1200 /venv/bin/python demo.py > $root/$id.before.log 2>&1 ); before=$?
+git apply $root/$id.applied.diff
 echo "$id: demo exit with patch=$after (want 1), without=$before (want 0)"
 mkdir -p /verif/seeded/$name && cp patch.diff demo.py meta.json /verif/seeded/$name/ 2>/dev/null
-tail -2 /tmp/mut/$id.after.log | cut -c1-200
+tail -2 $root/$id.after.log | cut -c1-200
